@@ -18,6 +18,15 @@ SUB_LISTS = [[], [0x40c], [0x40c, 0x0301], [0x0301], [0x701, 0x700], [0x2501], [
 
 def run(ctx):
     rnd = random.Random(ctx.seed)
+    # generator-grain sessions on one object (spec/Sessions.tla): listings read alternately, abandoned half way, options
+    # edited in place between requests; every next() validated by Sessions_Val, design model-checked by Sessions_MC
+    from . import sessions
+    from . import c13 as _c13
+    sessions.model_check(ctx)
+    for i_ in range(2):
+        sessions.run_sessions(ctx, random.Random(ctx.seed * 2 + 77 + i_), 120 if ctx.quick else 2500, ('kev', 'fkev'),
+                              lambda r, world=None: _c13.gen_dump(r, world=world, orphans=0.0, samples=0.0),
+                              _c13.gen_cfg, 'ses%d_' % i_)
     ctx.expect_ok(run_tlc('Pipeline_MC', MC_CFG % (2 if ctx.quick else 3, T7, '0, 1, 2', 'FProcNone', 'FClassAll',
                                                    'FSubAll', 'ok', 'INVARIANT KeventsExact'),
                           ctx.workdir, name='pipe_kevents', timeout=7200))
